@@ -777,6 +777,21 @@ def _anchors():
     return _ANCHORS
 
 
+_ANCHOR_CALLS = None
+
+
+def _anchor_calls():
+    global _ANCHOR_CALLS
+    if _ANCHOR_CALLS is None:
+        import os
+        p = os.path.join(os.path.dirname(os.path.dirname(os.path.abspath(__file__))), "anchors_calls.json")
+        try:
+            _ANCHOR_CALLS = json.load(open(p))
+        except Exception:
+            _ANCHOR_CALLS = {}
+    return _ANCHOR_CALLS
+
+
 _ANCHOR_ADTS = None
 
 
@@ -1035,6 +1050,12 @@ class Crate:
         for k in table:
             f, n = k.rsplit("::", 1)
             known[f].add(n)
+        ambiguous = []
+        def take(n, b):
+            self.by_name[n].append(b)
+            self.aliases[b.id] = n
+            b.real_name = b.name
+            b.name = n            # rules (and their name tables) see the name of the reviewed tree
         for k, sig in table.items():
             f, n = k.rsplit("::", 1)
             bs = by_file.get(f)
@@ -1070,10 +1091,40 @@ class Crate:
                         if len(cx) == 1 and sorted(t for t in tys if t is not cx[0]) == rest and b.local_ty(0) == sig[-1]:
                             cands.append(b)
             if len(cands) == 1:
-                self.by_name[n].append(cands[0])
-                self.aliases[cands[0].id] = n
-                cands[0].real_name = cands[0].name
-                cands[0].name = n            # rules (and their name tables) see the name of the reviewed tree
+                take(n, cands[0])
+            elif len(cands) > 1:
+                ambiguous.append((k, n, cands))
+        if ambiguous:
+            # several functions of one signature were renamed together (`on_see_slot` / `add_slot`): tell them apart by the
+            # names they call (anchors_calls.json: callee names per function of the reviewed tree).  Names that are
+            # themselves renamed or new are left out on both sides; the best candidate has to be strictly best.
+            ctab = _anchor_calls()
+            allknown = set().union(*known.values()) if known else set()
+            missing = {n for _, n, _ in ambiguous}
+            def callees(b):
+                out = set()
+                for c in b.calls:
+                    if c.callee is None or b.blocks[c.bb]["cleanup"]:
+                        continue
+                    t = self.bodies.get(c.callee.target)
+                    if t is not None and (t.file or "").startswith("src/") and t.name not in allknown:
+                        continue
+                    out.add(c.callee.name)
+                return out
+            taken = set()
+            for k, n, cands in ambiguous:
+                want = set(ctab.get(k, [])) - missing
+                scored = []
+                for b in cands:
+                    if b.id in taken or getattr(b, "real_name", None):
+                        continue
+                    have = callees(b)
+                    u = want | have
+                    scored.append((len(want & have) / len(u) if u else 0.0, b))
+                scored.sort(key=lambda x: -x[0])
+                if scored and scored[0][0] >= 0.5 and (len(scored) == 1 or scored[0][0] > scored[1][0]):
+                    taken.add(scored[0][1].id)
+                    take(n, scored[0][1])
         if self.aliases:
             # call sites of a renamed function are seen under the old name as well
             for b in self.bodies.values():
